@@ -61,4 +61,24 @@ theorem fixed_degree_never_bad_code (small : Bool) (ub : Nat) (ri : Bool) :
   rw [code_shape_all_checked]
   exact ⟨(fixed_degree_never_bad P1 small ub ri).1, (fixed_degree_never_bad P3 small ub ri).1, (fixed_degree_never_bad P5 small ub ri).1⟩
 
+/-- loop budgets of the current source (find_uv ×3, represent_integer_non_diag ×1, candidate loops 50 / 2·7⁴ / 2·21⁴) -/
+def budgetDim2 : Budget := ⟨SqiGen.SignFlow.findUvAttempts, SqiGen.SignFlow.nonDiagAttempts, SqiGen.SignFlow.sampleDim2⟩
+def budgetHeur : Budget := ⟨SqiGen.SignFlow.findUvAttempts, SqiGen.SignFlow.nonDiagAttempts, SqiGen.SignFlow.sampleHeur⟩
+def budgetHd : Budget := ⟨SqiGen.SignFlow.findUvAttempts, SqiGen.SignFlow.nonDiagAttempts, SqiGen.SignFlow.sampleHd⟩
+
+/-- the model's hard-wired "3 find_uv attempts" is the code's loop bound -/
+theorem find_uv_attempts_is_3 : SqiGen.SignFlow.findUvAttempts = 3 := by decide
+
+/-- **sign_bounded_code** — with the budgets of the current source every path of `protocols_sign` ends (in ok or explicit
+failure, by `sign_*_never_bad`) after at most 66 (dim-2), 4813 (heuristic), 388965 (HD) leaf calls -/
+theorem sign_bounded_code (t2 : Dim2Tape) (th : HeurTape) (tries : Nat) :
+    callsDim2 budgetDim2 t2 tries ≤ 66 ∧ callsHeur budgetHeur th tries ≤ 4813 ∧ callsHd budgetHd tries ≤ 388965 := by
+  have h1 := (sign_bounded budgetDim2 t2 th tries).1
+  have h2 := (sign_bounded budgetHeur t2 th tries).2.1
+  have h3 := (sign_bounded budgetHd t2 th tries).2.2
+  have e1 : 2 * (budgetDim2.uv + 2 * (1 + budgetDim2.nd)) + budgetDim2.samp + 2 = 66 := by decide
+  have e2 : (1 + budgetHeur.nd) + (budgetHeur.uv + 2 * (1 + budgetHeur.nd)) + budgetHeur.samp + 2 = 4813 := by decide
+  have e3 : (1 + budgetHd.nd) + budgetHd.samp + 1 = 388965 := by decide
+  omega
+
 end SqiProps.C04Code
